@@ -1266,11 +1266,17 @@ package memberlist
 //@ func (*Memberlist).anyAlive(m)
 //@   safety [C20]
 //@   requires ok: mlNet(m)
+//@ ghost $spawned bool      // schedule: a background goroutine was started with the new stop channel
 //@ func (*Memberlist).schedule(m)
 //@   safety [C20]
+//@   monitor Memberlist.tickerLock
 //@   requires ok: mlNet(m)
 //@   at go (*Memberlist).triggerFunc: assert positive-stagger [C20]: stagger > 0
 //@   at go (*Memberlist).pushPullTrigger: assert positive-interval [C20]: m.config.PushPullInterval > 0
+//@   at call (*sync.Mutex).Lock: set $spawned := false
+//@   at go (*Memberlist).triggerFunc: set $spawned := true
+//@   at go (*Memberlist).pushPullTrigger: set $spawned := true
+//@   ensures-internal stop-recorded [C20]: $spawned ==> m.stopTick != nil      // whatever was started listens on a stop channel that deschedule will close
 //@ func (*Memberlist).deschedule(m)
 //@   safety [C20]
 //@   requires ok: mlNet(m)
@@ -1344,7 +1350,7 @@ package memberlist
 //@   inv SD [C20]: m.shutdown == 0 ==> m.shutdownCh != nil && !closed(m.shutdownCh)
 //@ lock Memberlist.tickerLock recv m
 //@   protects Memberlist.tickers, Memberlist.stopTick, elems *time.Ticker, $closed
-//@   inv TK [C20]: len(m.tickers) > 0 ==> m.stopTick != nil && !closed(m.stopTick) && (forall i int :: 0 <= i && i < len(m.tickers) ==> m.tickers[i] != nil)
+//@   inv TK [C20]: (m.stopTick != nil ==> !closed(m.stopTick)) && (len(m.tickers) > 0 ==> m.stopTick != nil) && (forall i int :: 0 <= i && i < len(m.tickers) ==> m.tickers[i] != nil)
 
 // ---------------------------------------------------------------------
 // C03: probe schedule and failure wiring (the wall-clock bound itself is liveness and is not decided)
